@@ -65,6 +65,7 @@ type VerifOp struct {
 	PauseAt  string        `json:"pause_at,omitempty"`  // race: hook point at which the first writer is held
 	FirstTxn bool          `json:"first_txn,omitempty"` // race: the first writer is a (single-dataset) transaction
 	SinceStr string        `json:"since_str,omitempty"` // hchanges: a position as a decimal string (positions at and above 2^63 do not fit Since)
+	Ctx      string        `json:"ctx,omitempty"`       // hbatch: the request's @context binds the default prefix to this expansion instead of http://v/
 	Ld       bool          `json:"ld,omitempty"`        // hchanges / hentities: every request is repeated with Accept: application/ld+json and compared
 	RefuseDuring string    `json:"refuse_during,omitempty"` // batch: while this writer stands at batch.beforeIdCommit, a batch into this OTHER dataset is refused
 	Burn     int           `json:"n,omitempty"`         // burn: number of internal ids to use up (entities stored in a hidden dataset)
@@ -109,9 +110,12 @@ type VerifObs struct {
 	Ns      map[string]string `json:"ns"`
 }
 
+// verifDefaultNS: the expansion the payload's context binds the default prefix "_" to (op field ctx changes it for one request)
+var verifDefaultNS = "http://v/"
+
 func verifPayload(ents []VerifEnt) []byte {
 	var b bytes.Buffer
-	b.WriteString(`[{"id":"@context","namespaces":{"_":"http://v/"}}`)
+	b.WriteString(`[{"id":"@context","namespaces":{"_":"` + verifDefaultNS + `"}}`)
 	for _, e := range ents {
 		if e.Props == nil {
 			e.Props = map[string]interface{}{}
@@ -703,6 +707,18 @@ func VerifLens(store *Store, ents []VerifEnt) []int {
 
 // VerifPayload: the UDA JSON payload (context + entities) for a list of entities
 func VerifPayload(ents []VerifEnt) []byte { return verifPayload(ents) }
+
+// VerifWithDefaultNS runs f with the payload context's default expansion set to ns ("" = unchanged)
+func VerifWithDefaultNS(ns string, f func()) {
+	if ns == "" {
+		f()
+		return
+	}
+	old := verifDefaultNS
+	verifDefaultNS = ns
+	defer func() { verifDefaultNS = old }()
+	f()
+}
 
 // VerifEntFromMap converts one element of a streamed JSON response into the observation form
 func VerifEntFromMap(m map[string]interface{}) VerifEnt {
